@@ -6,6 +6,11 @@
 import ODataVerif.Props.C05Text
 import ODataVerif.Props.C19Text
 import ODataVerif.Props.C13Accepted
+import ODataVerif.Props.C07Lex
+import ODataVerif.Props.C09Parse
+import ODataVerif.Props.C12
+import ODataVerif.Props.C06Image
+import ODataVerif.Props.C10Image
 namespace OQ.Accepted
 open OQ.Spec OQ.C06 OQ.C13A OQ.Respelling OQ.ParseNorm
 
@@ -25,6 +30,21 @@ theorem grouping_accepted (s0 : Str) (e : Expr) (ha : s0.all isAsciiChar = true)
     parseText pyCharEnv (render (printToks s1 .minimal e)) = .ok e ∧ parseText pyCharEnv (render (printToks s2 .full e)) = .ok e :=
   ⟨C13.parse_text s1 .minimal e (C10.parse_image pyCharEnv s0 e h) (accepted_lexable s0 e ha h hk hn),
    C13.parse_text s2 .full e (C10.parse_image pyCharEnv s0 e h) (accepted_lexable s0 e ha h hk hn)⟩
+
+/-- C07 for accepted texts: for EVERY ASCII filter text the parser accepts, every dialect and every alias without a double quote, if the dialect model
+    emits pieces then the emitted CHARACTERS are read by the independent SQL tokeniser as exactly the tokens of those pieces - every string of the filter
+    inside one string-literal token, every field inside one quoted identifier; the side condition `litOk` of `C07.lex_pieces` is discharged by the lexer's image -/
+theorem injection_free_accepted (s0 : Str) (e : Expr) (d : Dialect) (al : Option Str) (ps : List Piece) (ha : s0.all isAsciiChar = true)
+    (h : parseText pyCharEnv s0 = .ok e) (hal : aliasOk al = true) (hv : sqlVisit pyCharEnv.isDigit d al e = .ok ps) :
+    sqlLex (renderPieces ps) = some (pieceToks ps) :=
+  C07.lex_pieces pyCharEnv.isDigit d al e ps (C06.accepted_litOk s0 e d ha h).1 hal hv
+
+/-- C09 for accepted texts: … and if the filter has a mirror tree and is inside the SQL-expressible fragment, the emitted tokens parse to that tree -/
+theorem mirror_accepted (s0 : Str) (e : Expr) (d : Dialect) (al : Option Str) (ps : List Piece) (t : SqlTree) (ha : s0.all isAsciiChar = true)
+    (h : parseText pyCharEnv s0 = .ok e) (hs : sqlSafe d e = true) (hm : mirror pyCharEnv.isDigit d al e = some t)
+    (hv : sqlVisit pyCharEnv.isDigit d al e = .ok ps) :
+    sqlParse (pieceToks ps) = some t :=
+  C09.parse_mirror pyCharEnv.isDigit d al e ps t (C06.accepted_litOk s0 e d ha h).1 hs hm hv
 
 /-- non-vacuity: an accepted text with a keyword-prefixed field, a namespaced call with named parameters, a lambda and every hypothesis satisfied -/
 example : (match parseText pyCharEnv "nullable eq 1 or ns.f(p=x/a.b) ne 'it''s' and k/any(v: v/w lt -2.5e3)".toList with
